@@ -47,7 +47,7 @@ C["C14"] = ("PARTIAL PROOF. Theorems C14_partial_*: kernel-evaluated over the lo
             TECH + " (obligations over the generated module descriptions closed by vm_compute) + translator + fresh-process import-order correspondence", "DESIGN.md 4 C14")
 C["C15"] = ("Theorems C15_*: each of the 24 meta rules and the same-named rule of rfc7405.Rule accept the same strings and match the same ends at every offset (every oracle); each of the 21 rules of rfc5234.Rule does so w.r.t. the grammar read from the RFC 5234 section 4 text (original char-val). Verified simulation checker + C01 on the reachable sub-grammars of the registry built from the translated texts. Tie: translator; parse_all acceptance of the three recognisers on derived sentences, mutants and %s/%i/prose fragments.",
             TECH + " (verified language-equivalence checker + restriction lemma + C01, closed by vm_compute) + translator + differential correspondence", "DESIGN.md 4 C15")
-C["C19"] = ("Theorem C19: for 37 of the 46 listed pairs the two rules accept the same strings and match the same ends at every offset (verified simulation checker on the grammars built from the translated texts + C01 on reachable sub-grammars); every listed pair resolves to existing rules; 7 pairs (rfc2616 date rules vs rfc7231) are refuted in the kernel by a concrete string and recorded as a known finding (letter case); 2 pairs (rfc5987/rfc8187 charset, ext-value) are outside the theorem (checker incompleteness) and rest on the differential check. Tie: translator; parse_all acceptance of both rules on sentences derived from either side, mutants and fixed probes.",
+C["C19"] = ("Theorem C19: for 37 of the 46 listed pairs the two rules accept the same strings and match the same ends at every offset (verified simulation checker on the grammars built from the translated texts + C01 on reachable sub-grammars); every listed pair resolves to existing rules; 7 pairs (rfc2616 date rules vs rfc7231) are refuted in the kernel by a concrete string and recorded as a known finding (letter case); 2 pairs (rfc5987/rfc8187 charset, ext-value: an alternative subsumed by another one) are proved by the verified subsumption-pruning checker LangEq2 (C19_subsumed_alternative_pairs); so 39 of 46 proved equal, 7 refuted. Tie: translator; parse_all acceptance of both rules on sentences derived from either side, mutants and fixed probes.",
             TECH + " (verified language-equivalence checker over generated grammars, closed by vm_compute) + translator + differential correspondence", "DESIGN.md 4 C19")
 
 NA = {
